@@ -73,6 +73,9 @@ def run(run, ix, tier):
         raise AnalysisError('only %d kernel calls found in mpf operators' % n)
     check_fstar(run, ix)
     check_mpf_new(run, ix)
+    check_keyword_independence(run, ix, 'B-R3t')
+    from .kernel_rules import check_exact_operand_conversion
+    check_exact_operand_conversion(run, ix, 'B-R3t')
     check_sticky_idioms(run, ix)
     check_tie_masks(run, ix)
 
@@ -188,6 +191,16 @@ def check_sticky_idioms(run, ix):
             if bad:
                 problems.append('floor square root is used for mode(s) %s that do not round down'
                                 % sorted(bad))
+        # the downward branch needs the EXACT floor root: isqrt_fast / sqrt_fixed may be one unit
+        # short on the pure-Python backend (their documented contract), which turns the root of a
+        # perfect square into its predecessor
+        names = [norm(c.func) for b in st.body for c in ast.walk(b) if isinstance(c, ast.Call)]
+        if any(n in ('isqrt_fast', 'sqrt_fixed', 'sqrt_fixed2', 'isqrt_fast_python') for n in names):
+            problems.append('the downward-rounding branch takes the root with an approximate helper (%s) '
+                            'instead of the exact floor root isqrt' %
+                            [n for n in names if n.startswith(('isqrt_fast', 'sqrt_fixed'))][0])
+        elif not any(n in ('isqrt', 'sqrtrem', 'isqrt_python', 'sqrtrem_python') for n in names):
+            problems.append('the downward-rounding branch does not compute an exact integer root')
         else_src = [norm(s) for s in ast.walk(ast.Module(body=st.orelse, type_ignores=[]))
                     if isinstance(s, ast.stmt)]
         if not any('sqrtrem(' in s for s in else_src):
@@ -214,9 +227,24 @@ def check_sticky_idioms(run, ix):
                          line=f.lineno))
     else:
         for b in blocks:
-            bound = norm(b.test.comparators[0])
+            conj = b.test.values if isinstance(b.test, ast.BoolOp) and isinstance(b.test.op, ast.And) \
+                else [b.test]
+            dcmp = [c for c in conj if isinstance(c, ast.Compare) and norm(c.left) == 'delta']
+            bound = norm(dcmp[0].comparators[0]) if dcmp else '?'
             body = [norm(s) for s in b.body]
             problems = []
+            # the smaller operand must lie entirely below the lowest bit of the larger one: the
+            # magnitude gap alone does not exclude that it reaches into a mantissa longer than prec
+            # (defect of the pinned tree: wrong floor/ceiling for operands with long mantissas)
+            shifted_name = [s.split(' ')[0] for s in body if '<<= offset' in s]
+            big = shifted_name[0][0] if shifted_name else '?'          # 's' or 't'
+            small = 't' if big == 's' else 's'
+            want = ['offset >= %sbc' % small, '-offset >= %sbc' % small, 'offset > %sbc' % small,
+                    '-offset > %sbc' % small]
+            if not any(norm(c) in want for c in conj):
+                problems.append('the shortcut is not restricted to operands that do not overlap (`offset >= '
+                                '%sbc`): with a mantissa longer than the precision the small operand reaches '
+                                'into the kept bits and a directed result lands on the wrong side' % small)
             if 'offset = %s' % bound not in body:
                 problems.append('guard `delta > %s` and the shift `offset = ...` disagree (the '
                                 'smaller operand may overlap the kept bits)' % bound)
@@ -279,3 +307,59 @@ def _rename(expr, var):
         if isinstance(x, ast.Name) and x.id == var:
             x.id = 'N'
     return ast.unparse(e)
+
+
+def check_keyword_independence(run, ix, rule):
+    """the per-call keywords prec / dps / rounding are independent: every function that parses them
+    reads `rounding` on every path on which keywords were given, i.e. the read of the rounding key
+    is not control-dependent on the presence of the precision keys (and the precision keys are not
+    read only under a test of the rounding key).  Otherwise mpf('0.1', dps=30, rounding='f') silently
+    rounds to nearest."""
+    n = 0
+    for m in ix.modules.values():
+        for f in m.funcs.values():
+            reads = []
+            for x in _walk_own(f.node):
+                key = None
+                if isinstance(x, ast.Call) and isinstance(x.func, ast.Attribute) and x.func.attr == 'get' and \
+                        x.args and isinstance(x.args[0], ast.Constant) and norm(x.func.value) == 'kwargs':
+                    key = x.args[0].value
+                elif isinstance(x, ast.Subscript) and norm(x.value) == 'kwargs' and \
+                        isinstance(x.slice, ast.Constant) and isinstance(x.ctx, ast.Load):
+                    key = x.slice.value
+                if key in ('rounding', 'prec', 'dps'):
+                    reads.append((key, x))
+            if not any(k == 'rounding' for k, _ in reads):
+                continue
+            for key, x in reads:
+                n += 1
+                # enclosing tests
+                p = x
+                bad = None
+                while p is not None and p is not f.node:
+                    par = getattr(p, '_parent', None)
+                    if isinstance(par, ast.If):
+                        in_body = any(p is s2 for s2 in par.body)
+                        in_else = any(p is s2 for s2 in par.orelse)
+                        t = norm(par.test)
+                        others = [k for k in ('rounding', 'prec', 'dps') if k != key and ("'%s'" % k) in t]
+                        # prec and dps are alternatives of one setting: `elif 'dps' in kwargs` is fine
+                        if key in ('prec', 'dps'):
+                            others = [k for k in others if k == 'rounding']
+                        if (in_body or in_else) and others:
+                            bad = (par, others[0])
+                    p = par
+                if bad:
+                    par, other = bad
+                    st = x
+                    while not isinstance(st, ast.stmt):
+                        st = st._parent
+                    run.fail(Finding(rule, f.file, f.qualname, norm(st),
+                                     'the keyword `%s` is read only depending on whether `%s` was given '
+                                     '(`%s`): the two settings are independent, so one of them is silently '
+                                     'ignored for some keyword combinations' % (key, other, norm(par, 50)),
+                                     line=st.lineno))
+                else:
+                    run.ok(rule, '%s reads %r independently' % (f.qualname, key) if n < 12 else None)
+    if n < 6:
+        raise AnalysisError('keyword parsing sites not found (%d)' % n)
